@@ -28,8 +28,9 @@ type Net struct {
 
 	peers    map[int]peer.ID
 	byPeer   map[peer.ID]int
-	cut      map[[2]int]bool // unordered pair -> link is cut
-	blockCut map[[2]int]bool // unordered pair -> messages pass but blocks cannot be fetched (half-open partition)
+	cut      map[[2]int]bool         // unordered pair -> link is cut
+	blockCut map[[2]int]bool         // unordered pair -> messages pass but blocks cannot be fetched (half-open partition)
+	hashCut  map[int]map[string]bool // replica -> blocks it cannot obtain from anybody until one of its links is healed
 	subs     map[string]map[int]*simTopic
 	direct   map[int]iface.DirectChannelEmitter
 	// joinSeen[topic][a][b]: a has been told b joined topic (reset on cut)
@@ -43,7 +44,7 @@ type Net struct {
 }
 
 func newNet(e *Env) *Net {
-	return &Net{env: e, peers: map[int]peer.ID{}, byPeer: map[peer.ID]int{}, cut: map[[2]int]bool{}, blockCut: map[[2]int]bool{},
+	return &Net{env: e, peers: map[int]peer.ID{}, byPeer: map[peer.ID]int{}, cut: map[[2]int]bool{}, blockCut: map[[2]int]bool{}, hashCut: map[int]map[string]bool{},
 		subs: map[string]map[int]*simTopic{}, direct: map[int]iface.DirectChannelEmitter{},
 		joinSeen: map[string]map[int]map[int]bool{}, Auto: true}
 }
@@ -100,6 +101,8 @@ func (n *Net) Heal(a, b int) {
 	n.mu.Lock()
 	delete(n.cut, pair(a, b))
 	delete(n.blockCut, pair(a, b))
+	delete(n.hashCut, a)
+	delete(n.hashCut, b)
 	n.mu.Unlock()
 	n.announceJoins()
 }
@@ -483,6 +486,33 @@ func (n *Net) CutBlocks(a, b int) {
 	n.mu.Lock()
 	n.blockCut[pair(a, b)] = true
 	n.mu.Unlock()
+}
+
+// CutBlockHash makes block c unobtainable for replica a (unless a holds it itself): the
+// partition from the holders of c hit before a could fetch it.  Deterministic stand-in for
+// "the link went down between two fetches of one replication request"; it lasts until a
+// link of a is healed (Heal).
+func (n *Net) CutBlockHash(a int, c string) {
+	n.mu.Lock()
+	if n.hashCut[a] == nil {
+		n.hashCut[a] = map[string]bool{}
+	}
+	n.hashCut[a][c] = true
+	n.mu.Unlock()
+}
+
+// HashReachable reports whether replica a may fetch block c from other replicas.
+func (n *Net) HashReachable(a int, c string) bool {
+	n.mu.Lock()
+	defer n.mu.Unlock()
+	return !n.hashCut[a][c]
+}
+
+// PendingSnapshot returns a copy of the undelivered payloads, in queue order.
+func (n *Net) PendingSnapshot() []Msg {
+	n.mu.Lock()
+	defer n.mu.Unlock()
+	return append([]Msg(nil), n.Pending...)
 }
 
 // BlocksReachable reports whether a can fetch blocks held by b.
